@@ -31,7 +31,7 @@ func runC02(c *mon.Ctx) {
 		t      time.Time
 		inside bool
 	}{{"nb-1s", nb.Add(-time.Second), false}, {"nb+1s", nb.Add(time.Second), true}, {"middle", nb.Add(time.Hour), true}, {"na-1s", na.Add(-time.Second), true}, {"na+1s", na.Add(time.Second), false}}
-	tampers := []string{"none", "none", "text", "attr", "sig-nested"}
+	tampers := []string{"none", "none", "text", "attr", "sig-nested", "sigmethod-swapped"}
 	n := c.N(3600, 60000)
 	for k := 0; k < n; k++ {
 		cs := c.Begin("cert-trust", k)
@@ -238,7 +238,26 @@ func runC02(c *mon.Ctx) {
 			if target == nil {
 				target = d.Root()
 			}
-			if tamper == "sig-nested" {
+			if tamper == "sigmethod-swapped" {
+				// the SignatureMethod (or DigestMethod) identifier replaced by another registered or unknown one: the
+				// signature no longer verifies, and it is still the message's signature - never "no signature"
+				if sg := sim.SigOf(target); sg != nil {
+					uris := []string{"http://www.w3.org/2007/05/xmldsig-more#sha256-rsa-MGF1", "http://www.w3.org/2007/05/xmldsig-more#rsa-pss", "http://www.w3.org/2000/09/xmldsig#dsa-sha1",
+						"http://www.w3.org/2009/xmldsig11#dsa-sha256", "http://www.w3.org/2021/04/xmldsig-more#eddsa-ed25519", "http://www.w3.org/2000/09/xmldsig#hmac-sha1",
+						"http://www.w3.org/2001/04/xmldsig-more#hmac-sha256", "http://www.w3.org/2001/04/xmldsig-more#rsa-md5", "urn:verif:no-such-method", "", "http://www.w3.org/2007/05/xmldsig-more#sha512-rsa-MGF1",
+						"http://www.w3.org/2001/04/xmldsig-more#rsa-ripemd160", "http://www.w3.org/2007/05/xmldsig-more#sha3-256-rsa-MGF1"}
+					which := "SignatureMethod"
+					if r.IntN(5) == 0 {
+						which = "DigestMethod"
+					}
+					for _, e := range sim.AllElements(sg) {
+						if e.Tag == which {
+							e.CreateAttr("Algorithm", uris[r.IntN(len(uris))])
+							break
+						}
+					}
+				}
+			} else if tamper == "sig-nested" {
 				// the message's own signature (the one referencing the root) moved one level down, into an Extensions
 				// child: it no longer verifies, and it is still the message's signature - never "no signature"
 				if sg := sim.SigOf(target); sg != nil {
